@@ -19,19 +19,22 @@ rvars == <<rsys, rfile, rh>>
 Cells == {"ortho", "tri"}
 Places == {"inside", "outside", "face"}
 TypeSets == {"one", "two", "gap"}            \* gap: types 1 and 3 present, 2 absent
-PropSets == { {}, {"velocity"}, {"charge"}, {"velocity", "charge"}, {"w"}, {"velocity", "w", "t"} }
+PropSets == { {}, {"velocity"}, {"charge"}, {"velocity", "charge"}, {"w"}, {"velocity", "w", "t"}, {"charge", "rare"} }    \* "rare": the columns of the less common atom styles
 Pbcs == {"ppp", "pfp", "fpf"}
 Systems == [cell : Cells, origin : BOOLEAN, place : Places, types : TypeSets, symbols : BOOLEAN, props : PropSets, pbc : Pbcs]
 
 \* options per format
-DataOpts == [atom_style : {"atomic", "charge", "full", "hybrid charge"}, units : {"metal", "si", "real"}, ff : {"%.13f", "%.5e"}]
+RareStyles == {"molecular", "sphere", "dipole", "body", "peri", "electron", "ellipsoid"}
+DataOpts == [atom_style : {"atomic", "charge", "full", "hybrid charge"} \cup RareStyles, units : {"metal", "si", "real", "nano"}, ff : {"%.13f", "%.5e"}]
 DumpOpts == [units : {"metal", "si"}, scaled : BOOLEAN, ff : {"%.13f", "%.13e"}]
 TableOpts == [withid : BOOLEAN, scaled : BOOLEAN, ff : {"%.13f"}]
 PoscarOpts == [style : {"direct", "cartesian"}, scale : {1, 2}, ff : {"%.13e"}]
 OptsOf(fmt) == CASE fmt = "atom_data" -> DataOpts [] fmt = "atom_dump" -> DumpOpts [] fmt = "table" -> TableOpts [] fmt = "poscar" -> PoscarOpts
 
 \* what a format can carry
-StyleProps(o) == IF o.atom_style \in {"charge", "full", "hybrid charge"} THEN {"charge"} ELSE {}
+StyleProps(o) == IF o.atom_style \in {"charge", "full", "hybrid charge"} THEN {"charge"}
+                 ELSE IF o.atom_style \in {"dipole", "electron"} THEN {"charge", "rare"}
+                 ELSE IF o.atom_style \in RareStyles THEN {"rare"} ELSE {}
 CarriedProps(fmt, o, s) ==
     CASE fmt = "atom_data" -> (s.props \cap ({"velocity"} \cup StyleProps(o)))
       [] fmt = "atom_dump" -> s.props
@@ -45,7 +48,8 @@ Norm(fmt, s) == CASE fmt = "atom_data" -> "wrapped_with_image_flags_restored"
                   [] OTHER -> "identity"
 \* a writer needs what its style lists
 Writable(fmt, o, s) ==
-    CASE fmt = "atom_data" -> (StyleProps(o) \subseteq s.props)
+    CASE fmt = "atom_data" -> (StyleProps(o) \subseteq s.props) /\ (("rare" \in s.props) <=> (o.atom_style \in RareStyles))
+                              /\ (o.units = "nano" => o.atom_style \in RareStyles \cup {"hybrid charge"})       \* keeps the product small
       [] fmt = "poscar" -> (~s.origin /\ s.pbc = "ppp")           \* POSCAR has neither origin nor flags
       [] fmt = "table" -> TRUE
       [] OTHER -> TRUE
